@@ -50,7 +50,7 @@ func init() {
 	})
 	register(&Rule{
 		Name:  "EARLY-RET",
-		Doc:   "in a translator of package asm no success return (error result nil) precedes an unconditional (top-level) store to a field of the IR object being filled: every successful path passes every unconditional field store",
+		Doc:   "in a translator of package asm no success return (error result nil) precedes an unconditional (top-level) store to a field of the IR object being filled, unless the stored value is computed from the very variable whose emptiness the early return tests: every successful path passes every field store that can matter on it",
 		Floor: 150,
 		Run:   ruleEARLYRET,
 	})
@@ -1067,10 +1067,23 @@ func ruleEARLYRET(c *Ctx) []Obligation {
 		}
 		// success returns nested in (or being) each top-level statement
 		type ret struct {
-			idx int
-			pos token.Pos
+			idx   int
+			pos   token.Pos
+			guard map[types.Object]bool // local variables tested by the conditions the return sits under
 		}
 		var rets []ret
+		pm := buildParents(fd.Body)
+		defs := collectDefs(info, fd.Body)
+		localsIn := func(e ast.Node, into map[types.Object]bool) {
+			ast.Inspect(e, func(m ast.Node) bool {
+				if id, ok := m.(*ast.Ident); ok {
+					if v, ok := info.Uses[id].(*types.Var); ok && !v.IsField() && v.Parent() != nil && v.Parent() != v.Pkg().Scope() {
+						into[v] = true
+					}
+				}
+				return true
+			})
+		}
 		for i, st := range fd.Body.List {
 			ast.Inspect(st, func(nd ast.Node) bool {
 				switch nd := nd.(type) {
@@ -1078,11 +1091,55 @@ func ruleEARLYRET(c *Ctx) []Obligation {
 					return false
 				case *ast.ReturnStmt:
 					if isSuccess(nd) {
-						rets = append(rets, ret{i, nd.Pos()})
+						g := map[types.Object]bool{}
+						for x := pm[nd]; x != nil; x = pm[x] {
+							if is, ok := x.(*ast.IfStmt); ok {
+								localsIn(is.Cond, g)
+							}
+						}
+						rets = append(rets, ret{i, nd.Pos(), g})
 					}
 				}
 				return true
 			})
+		}
+		// dependsOn: the stored value is computed from one of the guard variables (through local definitions)
+		dependsOn := func(rhs []ast.Expr, guard map[types.Object]bool) bool {
+			if len(guard) == 0 {
+				return false
+			}
+			seen := map[types.Object]bool{}
+			var walk func(e ast.Node, depth int) bool
+			walk = func(e ast.Node, depth int) bool {
+				used := map[types.Object]bool{}
+				localsIn(e, used)
+				for v := range used {
+					if guard[v] {
+						return true
+					}
+				}
+				if depth >= 4 {
+					return false
+				}
+				for v := range used {
+					if seen[v] {
+						continue
+					}
+					seen[v] = true
+					for _, d := range defs[v] {
+						if walk(d, depth+1) {
+							return true
+						}
+					}
+				}
+				return false
+			}
+			for _, r := range rhs {
+				if walk(r, 0) {
+					return true
+				}
+			}
+			return false
 		}
 		for i, st := range fd.Body.List {
 			as, ok := st.(*ast.AssignStmt)
@@ -1109,6 +1166,11 @@ func ruleEARLYRET(c *Ctx) []Obligation {
 				o := Obligation{Key: k, Pos: c.pos(as.Pos()), Verdict: OK, Tags: irTags(owner)}
 				for _, r := range rets {
 					if r.idx < i {
+						if dependsOn(as.Rhs, r.guard) {
+							// the guard found empty exactly what this store is computed from
+							// (`if len(xs) == 0 { return … }` before `obj.F = make(…, len(xs))`)
+							continue
+						}
 						if why, ok := earlyRetExempt[funcKey(fn)+": "+typeKey(owner)+"."+se.Sel.Name]; ok {
 							o.Verdict, o.Detail = EXEMPT, why
 							break
